@@ -61,6 +61,12 @@ func c01Scenarios(tier string) []*hist.Scenario {
 			N:    n, Init: init, Alphabet: al, K: k, Y: y, MaxPerClient: maxPer, Cfg: big,
 		})
 	}
+	wide := func(fam string, init, al []string, n int) {
+		out = append(out, &hist.Scenario{
+			Name: fmt.Sprintf("c01/%s/%s/wideN%d", fam, strings.Join(al, "+"), n),
+			N:    n, Init: init, Alphabet: al, K: n, Y: n, MaxPerClient: 1, EditsFirst: true, MaxSyncPerClient: 1, Cfg: big,
+		})
+	}
 	if tier == "quick" {
 		for _, f := range coreFamilies() {
 			for _, al := range pairs(f.ops) {
@@ -73,12 +79,24 @@ func c01Scenarios(tier string) []*hist.Scenario {
 				add(f.name, "", f.init, []string{op}, 3, 3, 3, 1)
 			}
 		}
+		// four and five clients, wide and shallow: every subset of the clients
+		// makes one (pairwise concurrent) edit, then every order in which the
+		// clients sync once; 495 / 4 061 histories per kind
+		for _, f := range coreFamilies() {
+			for _, op := range f.ops {
+				wide(f.name, f.init, []string{op}, 4)
+			}
+		}
+		for _, f := range coreFamilies() {
+			wide(f.name, f.init, f.ops[:1], 5)
+		}
 		return out
 	}
 	// Thorough, smallest shapes first (histories in normal form before no-effect
 	// pruning, `vcheck countshape`): N2K2Y3 pair 0.84k, N3K3Y3 single 0.93k,
 	// N2K2Y4 pair 2.4k, N3K3Y4 single 3.9k, N3K3Y3 pair 4.1k, N2K3Y4 pair 12.6k,
-	// N4K4Y4 single 29k. (N5 is 1.3M per kind: out of reach, not claimed.)
+	// N4K4Y4 single 29k; wide-and-shallow N4 0.5k, N5 4.1k per kind (general N5
+	// is 1.3M per kind: out of reach, not claimed).
 	for _, f := range families() {
 		for _, al := range pairs(f.ops) {
 			add(f.name, "", f.init, al, 2, 2, 3, 0)
@@ -112,6 +130,16 @@ func c01Scenarios(tier string) []*hist.Scenario {
 		}
 	}
 	for _, f := range coreFamilies() {
+		for _, op := range f.ops {
+			wide(f.name, f.init, []string{op}, 4)
+		}
+	}
+	for _, f := range coreFamilies() {
+		for _, op := range f.ops {
+			wide(f.name, f.init, []string{op}, 5)
+		}
+	}
+	for _, f := range coreFamilies() {
 		for _, al := range pairs(f.ops[:4]) {
 			add(f.name, "", f.init, al, 2, 3, 4, 0)
 		}
@@ -141,7 +169,7 @@ func init() {
 	registerH(spec, &Check{
 		Level: "exploration",
 		Rule: "every normal-form history (partial-order reduced) of <=K edits and <=Y syncs per scenario " +
-			"(one scenario per data type x pair of edit kinds x client count), each executed on real clients + real in-process server " +
+			"(one scenario per data type x pair of edit kinds x client count: 2 clients pairs of kinds, 3 clients one edit each, 4 and 5 clients wide-and-shallow - every subset of clients makes one concurrent edit, then every order in which the clients sync once), each executed on real clients + real in-process server " +
 			"followed by the quiescent closure; non-trivial = contains two edits by different clients that were concurrent " +
 			"(the later author had not received the earlier edit); all enumerated histories are distinct by construction",
 		Assume: []string{
@@ -149,7 +177,7 @@ func init() {
 			"values outside the alphabets (long strings, many keys) are not explored",
 			"Go map iteration order inside the code under test is not controlled; every violation is re-executed 5x",
 		},
-		QuickBudget: 300 * time.Second,
+		QuickBudget: 400 * time.Second,
 	})
 }
 
